@@ -583,12 +583,19 @@ pub fn parse_iter<'a>(
                         ));
                     }
                     Document::DirectiveLine(label, d, d_op_args) => {
-                        if let Some(label) = *label {
-                            if let Document::Label(name) = label {
-                                context.push_to_last((
-                                    CodePoint { line_num, num: 1 },
-                                    Item::Label(name),
-                                ));
+                        let label = match *label {
+                            Some(Document::Label(name)) => Some((
+                                CodePoint { line_num, num: 1 },
+                                Item::Label(name),
+                            )),
+                            _ => None,
+                        };
+                        // a label on an `.org` line names the new origin, where the next item lands:
+                        // there the directive comes first
+                        let label_names_origin = d == Directive::Org;
+                        if !label_names_origin {
+                            if let Some(label) = label.clone() {
+                                context.push_to_last(label);
                             }
                         }
                         let item = if d == Directive::ElIf && !pending_elif {
@@ -597,6 +604,11 @@ pub fn parse_iter<'a>(
                         } else {
                             d.parse(&d_op_args, &context, CodePoint { line_num, num: 2 })?
                         };
+                        if label_names_origin {
+                            if let Some(label) = label {
+                                context.push_to_last(label);
+                            }
+                        }
                         next_item = item;
                     }
                     Document::EmptyLine => {}
